@@ -1,3 +1,167 @@
-import Sbdf.Slice
+/-
+  C12 — Inputs are copied, outputs are independent, everything is released exactly once.
+
+  The model is value-semantic, so "the constructor is unaffected by later modification of its
+  input" and "a getter's result is independent of the container" hold by construction there; that
+  part of the property lives in the tie (the harness overwrites and releases every input right
+  after the constructor returns, and every returned copy, and compares with the model).
+
+  What is proved here is the ownership protocol: every constructor, reader and copying getter
+  creates a root that owns FRESH blocks (deep copy); a caller-built column/table slice owns only
+  its own frame, a reader-built one owns the arrays / column slices it created.  For every history
+  of such creations, releasing each root once — in any order — frees every block and frees none
+  twice.
+-/
+import Sbdf.Basic
 namespace Sbdf.C12
+
+/-- a root object the caller must release, with the heap blocks its destroy function frees -/
+structure Root where
+  blocks : List Nat
+  deriving DecidableEq, Repr
+
+/-- the heap: blocks currently allocated -/
+abbrev Heap := List Nat
+
+/-- the documented destroy function: frees the root's blocks; `none` = some block is not live
+    (double or invalid free) -/
+def release (h : Heap) (r : Root) : Option Heap :=
+  if r.blocks.all (fun b => h.contains b) then some (h.filter (fun b => !r.blocks.contains b)) else none
+
+def releaseAll (h : Heap) : List Root → Option Heap
+  | [] => some h
+  | r :: rs => match release h r with
+    | none => none
+    | some h' => releaseAll h' rs
+
+/-- ownership invariant: every live block belongs to exactly one root, once -/
+structure Owned (h : Heap) (roots : List Root) : Prop where
+  nodup : (roots.flatMap (·.blocks)).Nodup
+  cover : ∀ b, b ∈ h ↔ b ∈ roots.flatMap (·.blocks)
+  hnodup : h.Nodup
+
+/-- constructors / readers / copying getters: a new root over fresh blocks (a deep copy shares
+    nothing with its source).  `n` blocks numbered from the allocation counter `next`. -/
+def create (h : Heap) (roots : List Root) (next n : Nat) : Heap × List Root × Nat :=
+  let bs := List.range' next n
+  (h ++ bs, roots ++ [⟨bs⟩], next + n)
+
+theorem create_owned (h : Heap) (roots : List Root) (next n : Nat) (ho : Owned h roots)
+    (hfresh : ∀ b ∈ h, b < next) :
+    Owned (create h roots next n).1 (create h roots next n).2.1 ∧ ∀ b ∈ (create h roots next n).1, b < next + n := by
+  simp only [create]
+  have hbs : (List.range' next n).Nodup := List.nodup_range'
+  have hdisj : ∀ b ∈ List.range' next n, b ∉ h := by
+    intro b hb hbh
+    rw [List.mem_range'_1] at hb
+    have := hfresh _ hbh; omega
+  refine ⟨⟨?_, ?_, ?_⟩, ?_⟩
+  · simp only [List.flatMap_append, List.flatMap_cons, List.flatMap_nil, List.append_nil]
+    rw [List.nodup_append]
+    refine ⟨ho.nodup, hbs, ?_⟩
+    intro a ha b hb hab
+    subst hab
+    exact hdisj a hb ((ho.cover a).mpr ha)
+  · intro b
+    simp only [List.mem_append, List.flatMap_append, List.flatMap_cons, List.flatMap_nil, List.append_nil]
+    rw [ho.cover b]
+  · rw [List.nodup_append]
+    exact ⟨ho.hnodup, hbs, fun a ha b hb hab => by subst hab; exact hdisj a hb ha⟩
+  · intro b hb
+    simp only [List.mem_append, List.mem_range'_1] at hb
+    rcases hb with hb | hb
+    · have := hfresh b hb; omega
+    · omega
+
+/-- releasing one root of an owned heap succeeds, frees exactly its blocks, and the rest stays owned -/
+theorem release_one (h : Heap) (r : Root) (rest : List Root) (ho : Owned h (r :: rest)) :
+    ∃ h', release h r = some h' ∧ Owned h' rest := by
+  have hall : r.blocks.all (fun b => h.contains b) = true := by
+    rw [List.all_eq_true]; intro b hb
+    simp only [List.contains_iff_mem, decide_eq_true_eq] 
+    exact (ho.cover b).mpr (by simp [hb])
+  refine ⟨h.filter (fun b => !r.blocks.contains b), by unfold release; rw [if_pos hall], ?_⟩
+  have hnd := ho.nodup
+  simp only [List.flatMap_cons] at hnd
+  rw [List.nodup_append] at hnd
+  refine ⟨hnd.2.1, ?_, ho.hnodup.filter _⟩
+  intro b
+  simp only [List.mem_filter, Bool.not_eq_true', List.contains_eq_mem, decide_eq_false_iff_not]
+  rw [ho.cover b]
+  simp only [List.flatMap_cons, List.mem_append]
+  constructor
+  · intro ⟨h1, h2⟩; rcases h1 with h1 | h1
+    · exact absurd h1 h2
+    · exact h1
+  · intro h1
+    exact ⟨.inr h1, fun h2 => hnd.2.2 b h2 b h1 rfl⟩
+
+/-- Releasing every root exactly once, in the given order, frees everything and nothing twice. -/
+theorem release_all (h : Heap) (roots : List Root) (ho : Owned h roots) : releaseAll h roots = some [] := by
+  induction roots generalizing h with
+  | nil =>
+    have : h = [] := by
+      cases h with
+      | nil => rfl
+      | cons b bs => have := (ho.cover b).mp (by simp); simp at this
+    simp [releaseAll, this]
+  | cons r rest ih =>
+    obtain ⟨h', h1, h2⟩ := release_one h r rest ho
+    simp only [releaseAll, h1]
+    exact ih h' h2
+
+/-- ownership does not depend on the order in which the caller releases -/
+theorem owned_perm (h : Heap) (roots roots' : List Root) (hp : roots.Perm roots') (ho : Owned h roots) :
+    Owned h roots' := by
+  have hp' : (roots.flatMap (·.blocks)).Perm (roots'.flatMap (·.blocks)) := hp.flatMap_right _
+  exact ⟨hp'.nodup_iff.mp ho.nodup, fun b => by rw [ho.cover b]; exact hp'.mem_iff, ho.hnodup⟩
+
+/-- ... so any order of release works -/
+theorem release_all_any_order (h : Heap) (roots order : List Root) (hp : roots.Perm order) (ho : Owned h roots) :
+    releaseAll h order = some [] := release_all h order (owned_perm h roots order hp ho)
+
+/-- releasing a root twice is detected (so "exactly once" is necessary) -/
+theorem double_release (h : Heap) (r : Root) (rest : List Root) (ho : Owned h (r :: rest)) (hne : r.blocks ≠ []) :
+    ∀ h', release h r = some h' → release h' r = none := by
+  intro h' hr
+  obtain ⟨h'', h1, h2⟩ := release_one h r rest ho
+  rw [h1] at hr
+  have hh : h'' = h' := by simpa using hr
+  subst hh
+  obtain ⟨b, hb⟩ := List.exists_mem_of_ne_nil _ hne
+  have hnd := ho.nodup
+  simp only [List.flatMap_cons] at hnd
+  rw [List.nodup_append] at hnd
+  have : b ∉ h'' := by
+    intro hbh
+    have := (h2.cover b).mp hbh
+    exact hnd.2.2 b hb b this rfl
+  have hall : ¬ (r.blocks.all (fun b => h''.contains b) = true) := by
+    rw [List.all_eq_true]; intro hc
+    have := hc b hb
+    simp only [List.contains_iff_mem, decide_eq_true_eq] at this
+    contradiction
+  unfold release; rw [if_neg hall]
+
+/-! ### which blocks the containers own -/
+
+/-- a caller-built column slice / table slice: only its frame (and its name copies); the value
+    arrays and column slices it references stay separate roots of the caller -/
+def callerSlice (frame : List Nat) : Root := ⟨frame⟩
+/-- a reader-built slice: its frame plus everything it created -/
+def readerSlice (frame : List Nat) (parts : List Root) : Root := ⟨frame ++ parts.flatMap (·.blocks)⟩
+
+/-- a caller-built slice and the arrays it references are released independently: both orders
+    are fine and together they free everything -/
+theorem caller_slice_and_arrays (next : Nat) (nArr nFrame : Nat) :
+    let s0 := create [] [] next nArr
+    let s1 := create s0.1 s0.2.1 s0.2.2 nFrame
+    releaseAll s1.1 s1.2.1 = some [] ∧ releaseAll s1.1 s1.2.1.reverse = some [] := by
+  intro s0 s1
+  have h0 : Owned ([] : Heap) [] := ⟨by simp, by simp, by simp⟩
+  have o0 := create_owned [] [] next nArr h0 (by simp)
+  have o1 := create_owned s0.1 s0.2.1 s0.2.2 nFrame o0.1 (by
+    intro b hb; have := o0.2 b hb; simpa [s0, create] using this)
+  exact ⟨release_all _ _ o1.1, release_all_any_order _ _ _ (List.reverse_perm _).symm o1.1⟩
+
 end Sbdf.C12
